@@ -672,6 +672,8 @@ func TestCheck(t *testing.T) {
 	r.MarkExhaustive("matrix cells upgrade path x send mode x epoll mode (30 cells, four fixed workloads each: application close from another goroutine while a handler runs (with asynchronous reading in half of the cells), orderly close, client reset while a handler runs and writes, pings and pongs behind every message with slow handlers)")
 	vlib.RunCheck(r, vlib.Check[Case]{Name: "sessions", N: r.Pick(900, 12000), Gen: gen, Run: runCase, Confirm: true, RecordCurrent: true})
 	vlib.RunCases(r, "glued-handshake", gluedCells(), runGlued, true)
+	vlib.RunCases(r, "client-dial-cells", clientCells(), runClientCase, true)
+	vlib.RunCheck(r, vlib.Check[ClientCase]{Name: "client-dial", N: r.Pick(300, 6000), Gen: genClientCase, Run: runClientCase, Confirm: true, RecordCurrent: true})
 	r.Finish()
 }
 
